@@ -61,6 +61,10 @@ def instances(tier, seed):
                     for imag in ((False, True) if (local == "arbitrary" and len(kinds) == 3) or tier == "thorough" else (False,)):
                         out.append(dict(op="tdvp_sweep", kinds=kinds, bonds=bonds, method=method, start=start, local=local, imag=imag, run_opts=dict(budget_s=120.0),
                                         label="chain %s sweep %s centre starts %s local=%s imag=%s" % (method, "".join(kinds), start, local, imag), key="sweep/%s" % method))
+                        if local == "arbitrary" and "w" not in kinds and (len(kinds) == 2 or (tier == "thorough" and len(kinds) == 3)):
+                            # hopping blocks: local operators that are not symmetric in their physical indices (all-zero operator labels allow only diagonal ones on electron sites)
+                            out.append(dict(op="tdvp_sweep", kinds=kinds, bonds=bonds, method=method, start=start, local=local, imag=imag, hop=True, run_opts=dict(budget_s=120.0),
+                                            label="chain %s sweep %s centre starts %s local=%s imag=%s hopping operator" % (method, "".join(kinds), start, local, imag), key="sweep/%s/hop" % method))
             # the same sweeps with an ODE solver instead of Krylov for the local problems (ivp_solver != "krylov"): the right-hand side handed to solve_ivp
             if len(kinds) == 3 or tier == "thorough":
                 for imag in (False, True):
@@ -152,7 +156,7 @@ def h_tdvp_sweep(ctx, P):
     psi = lib.build_mps(ctx, "a", model, P["bonds"], [np.array(q) for q in qn], [1], qnidx, to_right=(qnidx == 0), kind="real", coeff="one")
     psi.evolve_config = EvolveConfig(getattr(EvolveMethod, P["method"]), **(dict(ivp_solver="RK45") if P.get("ivp") else {}))
     psi.compress_config = CompressConfig(CompressCriteria.fixed, max_bonddim=16)
-    H = sym_mpo(ctx, "o", model, n)
+    H = sym_mpo(ctx, "o", model, n, hop=P.get("hop", False))
     Hd = lib.dense_op(lib.tensors(H))
     v0 = lib.dense_of(psi)
     tau = ctx.real("tau", 0.2)
